@@ -1736,3 +1736,19 @@ Lemma aug_bounds : forall a b,
   (bimp (sem_hs a) (sem_hs (fst (hs_iop OUnion a b))) /\
    bimp (sem_hs (fst (hs_iop OUnion a b))) (BOr (sem_hs a) (sem_hs b))).
 Proof. intros a b. rewrite !iop_sem. split; [apply graft_bounds_inter | apply graft_bounds_union]. Qed.
+
+(* whichever derivation the LALR automaton picks: two parse trees of the same geometry text build the same
+   GeometryTree (so SLY's conflict resolution cannot change what is read) *)
+Theorem grammar_unambiguous : forall t1 t2,
+  pwf cell_productions t1 = true -> proot t1 = "geometry_expr"%string ->
+  uses_shortcut t1 = false -> hash_neg (pyield t1) = false ->
+  pwf cell_productions t2 = true -> proot t2 = "geometry_expr"%string ->
+  uses_shortcut t2 = false -> hash_neg (pyield t2) = false ->
+  strip (pyield t1) = strip (pyield t2) -> pact t1 = pact t2.
+Proof.
+  intros t1 t2 W1 R1 S1 H1 W2 R2 S2 H2 E.
+  destruct (grammar_derives t1 W1 ltac:(rewrite R1; reflexivity) S1 H1) as (g1 & A1 & D1 & _).
+  destruct (grammar_derives t2 W2 ltac:(rewrite R2; reflexivity) S2 H2) as (g2 & A2 & D2 & _).
+  rewrite R1 in D1. rewrite R2 in D2. rewrite E in D1. cbn [lvl_of String.eqb Ascii.eqb Bool.eqb] in D1, D2.
+  rewrite A1, A2. f_equal. eapply derives_unique; eauto.
+Qed.
